@@ -4,9 +4,9 @@
 P=$1; WT=$2; V=/verif/seeded/$P; OUT=/verif/out/seedval/$P; mkdir -p $OUT
 git -C $WT checkout -q -- . && git -C $WT clean -fdq -e TASK.md
 cd $WT || exit 9
-PYTHONPATH=$WT/src timeout 300 /venv/bin/python $V/demo_$P.py > $OUT/demo_clean.log 2>&1; echo "demo_clean_exit=$?" > $OUT/result
+PYTHONPATH=$WT/src timeout 300 /venv/bin/python $V/demo_${DEMO:-$P}.py > $OUT/demo_clean.log 2>&1; echo "demo_clean_exit=$?" > $OUT/result
 git -C $WT apply $V/patch.diff || { echo "apply_failed=1" >> $OUT/result; exit 1; }
-PYTHONPATH=$WT/src timeout 300 /venv/bin/python $V/demo_$P.py > $OUT/demo_patched.log 2>&1; echo "demo_patched_exit=$?" >> $OUT/result
+PYTHONPATH=$WT/src timeout 300 /venv/bin/python $V/demo_${DEMO:-$P}.py > $OUT/demo_patched.log 2>&1; echo "demo_patched_exit=$?" >> $OUT/result
 unshare -rn sh -c "ip link set lo up; cd $WT && timeout 900 /venv/bin/python -m pytest -q -p no:cacheprovider --timeout=900 --continue-on-collection-errors tests/it_tests tests/unit_tests --deselect tests/unit_tests/api/plugin/metrics/test_otel_metrics.py" > $OUT/tests.log 2>&1
 echo "tests_exit=$?" >> $OUT/result
 tail -1 $OUT/tests.log >> $OUT/result
